@@ -120,7 +120,8 @@ def event_list(quick):
             for fault in faults:
                 for catch in [None] + list(range(1, fault[1])):
                     evs.append(["nest", L, modes, fault, catch])
-    evs += [["mkvjp"], ["callvjp"], ["rule_reenter", 1], ["rule_reenter", 2], ["fwd_reenter"], ["rule_reenter_fail"]]
+    evs += [["mkvjp"], ["callvjp"], ["callvjp_fault", 1], ["callvjp_fault", 2], ["mkhvp"], ["callhvp"], ["callhvp_fault", 1],
+            ["rule_reenter", 1], ["rule_reenter", 2], ["fwd_reenter"], ["rule_reenter_fail"]]
     return evs
 
 
@@ -160,11 +161,29 @@ def run_event(ev):
                     return f
 
                 return repr(float(D(modes[0], level(1, None))(X0)))
+            fan = lambda x: p(x, (9, 1)) * x + p(x, (9, 2)) * x       # fan-out: x feeds four operations
             if kind == "mkvjp":
-                STORE["vjp"] = ag.make_vjp(lambda x: p(x, (9, 1)) * x)(X0)[0]
+                STORE["vjp"] = ag.make_vjp(fan)(X0)[0]
+                STORE["hist"] = tuple(h for h in STORE.get("hist", ()) if "vjp" not in h)
                 return "stored"
             if kind == "callvjp":
                 return repr(float(STORE["vjp"](1.0))) if "vjp" in STORE else "none"
+            if kind == "callvjp_fault":     # the k-th rule of the stored function's backward pass fails; the function is kept
+                if "vjp" not in STORE:
+                    return "none"
+                ARM["spec"] = ("rule", 9, ev[1])
+                return repr(float(STORE["vjp"](1.0)))
+            if kind == "mkhvp":
+                STORE["hvp"] = ag.make_hvp(fan)(X0)[0]
+                STORE["hist"] = tuple(h for h in STORE.get("hist", ()) if "hvp" not in h)
+                return "stored"
+            if kind == "callhvp":
+                return repr(float(STORE["hvp"](1.0))) if "hvp" in STORE else "none"
+            if kind == "callhvp_fault":
+                if "hvp" not in STORE:
+                    return "none"
+                ARM["spec"] = ("rule", 9, ev[1])
+                return repr(float(STORE["hvp"](1.0)))
             if kind == "rule_reenter":
                 f = lambda x: Lb["r"](x) * x
                 return repr(float(ag.grad(f)(1.1) if ev[1] == 1 else ag.grad(ag.grad(f))(1.1)))
@@ -174,6 +193,8 @@ def run_event(ev):
                 return repr(float(ag.grad(lambda x: Lb["rf"](x) * x)(1.1)))
             raise HarnessError("unknown event %r" % (ev,))
     except (Fault, UserWarning) as e:
+        if kind.startswith("call") and kind.endswith("_fault"):
+            STORE["hist"] = tuple(STORE.get("hist", ())) + (kind,)
         return "EXC:" + type(e).__name__
     except HarnessError:
         raise
@@ -209,8 +230,14 @@ def expected(ev):
         return B(1).d("x1").ev({"x1": X0})
     if kind == "mkvjp":
         return "stored"
-    if kind == "callvjp":
-        return (math.cos(X0) + 0.5) * X0 + math.sin(X0) + 0.5 * X0   # or "none" when nothing is stored
+    if kind == "callvjp":        # d/dx [2 x p(x)], p(x) = sin x + x/2      (or "none" when nothing is stored)
+        return 2 * ((math.cos(X0) + 0.5) * X0 + math.sin(X0) + 0.5 * X0)
+    if kind in ("callvjp_fault", "callhvp_fault"):
+        return "EXC:Fault"
+    if kind == "mkhvp":
+        return "stored"
+    if kind == "callhvp":        # d2/dx2 [2 x p(x)] = 2 (2 p'(x) + x p''(x)) = 2 (2 cos x + 1 - x sin x)
+        return 2 * (2 * math.cos(X0) + 1.0 - X0 * math.sin(X0))
     if kind == "rule_reenter":
         return 4 * 1.1 ** 3 if ev[1] == 1 else 12 * 1.1 ** 2
     if kind == "fwd_reenter":
@@ -221,10 +248,10 @@ def expected(ev):
 
 def obs_matches_expected(ev, obs):
     want = expected(ev)
+    if ev[0] in ("callvjp", "callhvp", "callvjp_fault", "callhvp_fault") and obs == "none":
+        return True, want       # nothing stored yet in this history
     if isinstance(want, str):
         return obs == want, want
-    if ev[0] == "callvjp" and obs == "none":
-        return True, want
     try:
         got = float(obs)
     except ValueError:
@@ -295,7 +322,8 @@ def close(got, want):
 # ------------------------------------------------------------------ one transition in a fresh fork
 
 def harness_flags():
-    return ("vjp" in STORE,)
+    # the stored closures own a computation graph: what has been done to them is part of the state
+    return ("vjp" in STORE, "hvp" in STORE, tuple(STORE.get("hist", ()))[-2:])
 
 
 def after_event(ev, s0=None):
@@ -436,7 +464,7 @@ def run(ctx):
                 if not ok:
                     rep.violations.append(violation(PROP, "bfs", "event", "-", "wrong-result-after-history" if h else "wrong-result",
                                                     feats, choices, None, r["obs"], want, rp))
-                elif key in pristine_obs and r["obs"] != pristine_obs[key] and not (ev[0] == "callvjp"):
+                elif key in pristine_obs and r["obs"] != pristine_obs[key] and not (ev[0].startswith("call")):
                     rep.violations.append(violation(PROP, "bfs", "event", "-", "result-depends-on-history", feats, choices, None,
                                                     r["obs"], pristine_obs[key], rp))
                 if r["can"] != can0:
@@ -491,7 +519,7 @@ def replay(ctx, v):
     bad = None
     if not ok:
         bad = "wrong-result-after-history" if h else "wrong-result"
-    elif r["obs"] != r0["obs"] and ev[0] != "callvjp":
+    elif r["obs"] != r0["obs"] and not ev[0].startswith("call"):
         bad = "result-depends-on-history"
     elif r["can"] != base["can"]:
         bad = "canary-differs-from-fresh-interpreter"
